@@ -271,7 +271,7 @@ static void reuse(int shard, int nsh) {
 }
 
 int main(int argc, char **argv) {
-	h_init(); if (argc < 5) return 2;
+	h_init(); h_watchdog(5, 12);	/* 60 s of CPU inside one element = the call under test does not return */ if (argc < 5) return 2;
 	int thorough = !strcmp(argv[2], "thorough"); int shard = atoi(argv[3]), nsh = atoi(argv[4]); h_set_init(&real_obs, 1 << 12);
 	if (!strcmp(argv[1], "stub")) {
 		stub_bfs(shard, nsh);
